@@ -474,6 +474,8 @@ cdef class cyConstrainedQuadraticModel:
         cdef Py_ssize_t vi
         cdef cppVartype cpp_vartype
         for vi in range(num_variables):
+            if not (0 <= vartype_view[vi] <= 3) or not (lb_view[vi] <= ub_view[vi]):
+                raise ValueError("invalid variable type or bounds")
             self.cppcqm.add_variable(<cppVartype>(vartype_view[vi]), lb_view[vi], ub_view[vi])
 
         self.variables._extend(range(num_variables))
